@@ -444,6 +444,11 @@ def _other_call(name, cur, k):
              symdeldb=lambda: nn.SymdelDB(cur, k + 1).lookup(cur[:3]),
              symdel_hamming=lambda: nn.symdel(cur, max_edits=k, custom_distance='hamming'),
              symdel_seqs2=lambda: nn.symdel(cur, max_edits=k, seqs2=list(reversed(cur))),
+             # a reference that holds only part of the strings, queried with all of them, at the SAME max_edits as the call that follows:
+             # whatever a two-collection search leaves behind (a cache of deletion variants cut down to one index) shows next (C01-r6m3)
+             symdel_seqs2_part=lambda: nn.symdel(cur[:2], max_edits=k, seqs2=cur),
+             symdeldb_part=lambda: nn.SymdelDB(cur[:1], k).lookup(cur),
+             nn_seqs2_part=lambda: nn.nearest_neighbor(cur[-2:], max_edits=k, seqs2=cur),
              nn_seqs2=lambda: nn.nearest_neighbor(cur[:4], max_edits=k + 2, seqs2=cur),
              nn_ndarray=lambda: nn.nearest_neighbor(cur, max_edits=k, output_type='ndarray'),
              nn_coo=lambda: nn.nearest_neighbor(cur, max_edits=k, output_type='coo_matrix'),
@@ -668,7 +673,8 @@ def run_wide(ctx):
     # the module run in between (they share the module's globals)
     hists = []
     others = ['hash_based', 'kdtree', 'symdeldb', 'symdel_hamming', 'symdel_seqs2', 'nn_seqs2', 'nn_ndarray', 'nn_coo',
-              'symdel_custom', 'rejected']
+              'symdel_custom', 'rejected', 'symdel_seqs2_part', 'symdeldb_part', 'nn_seqs2_part']
+    parts = ['symdel_seqs2_part', 'symdeldb_part', 'nn_seqs2_part']
     for r in range(12 if quick else 60):
         seqs = small_rep(8, 20)
         extra = small_rep(8, 20)
@@ -683,7 +689,8 @@ def run_wide(ctx):
             steps += [['refill', [x[:30] for x in (extra * 3)[:len(seqs)]]], ['call', fns[r % 2], rng.choice([1, 2, 3]), {}]]
         else:
             steps += [['refill', extra], ['call', fns[r % 2], rng.choice([1, 2, 3]), {}]]
-        for name in rng.sample(others, 3):
-            steps += [['other', name, rng.choice([1, 2, 3])], ['call', rng.choice(fns), rng.choice([1, 2, 3]), {}]]
+        for name in rng.sample(others, 3) + [parts[r % 3]]:
+            k_other = rng.choice([1, 2, 3])
+            steps += [['other', name, k_other], ['call', rng.choice(fns), k_other if name in parts else rng.choice([1, 2, 3]), {}]]
         hists.append(dict(container=kind, salt=r, init=seqs, steps=steps))
     run_histories(ctx, hists)
